@@ -5,13 +5,17 @@
   t ∈ [0,1], tightness, ordering), unions of any number of boxes (containers, paths, subpaths),
   stroke growth, and cubic Béziers (containment, tightness, ordering; for every cubic whose leading
   coefficient is at least the code's 1e-8 threshold in size or exactly zero, given a square root
-  on the non-negatives). Arcs are *not* carried by a theorem (trigonometric argument); they, and
-  cubics with a leading coefficient strictly inside the threshold, are decided by the
-  correspondence stream and the dense-sampling + analytic-extrema oracle, and are named partial
-  in MANIFEST.
+  on the non-negatives). Arcs: the algebraic part is proved (section Arc: every point of the
+  denotation lies in the whole ellipse's box, the box is touched exactly where a coordinate's
+  derivative vanishes, and the angles `Arc.bbox` collects are those); that a *partial* arc's
+  coordinate is monotone between consecutive collected parameters is a trigonometric argument
+  not carried by a theorem, so partial arcs, and cubics with a leading coefficient strictly
+  inside the threshold, are decided by the correspondence stream and the dense-sampling +
+  analytic-extrema oracle, and are named partial in MANIFEST.
 -/
 import SvgVerif.Model.BBox
 import Mathlib.Tactic.Ring
+import Mathlib.Tactic.NormNum
 import Mathlib.Tactic.FieldSimp
 import Mathlib.Tactic.Linarith
 import Mathlib.Tactic.Positivity
@@ -806,4 +810,147 @@ example : CubicGuard (0 : K) 0 0 1 ∧ CubicGuard (0 : K) 1 2 3 := by
   · right; simp only [three]; ring
 
 end Cubic
+section Arc
+variable {K : Type} [Field K] [LinearOrder K] [IsStrictOrderedRing K]
+
+/-- Cauchy–Schwarz in the one form the arc box needs, with the defect made explicit -/
+theorem sq_comb_add (u v c s : K) (h : c * c + s * s = 1) :
+    (u * c + v * s) * (u * c + v * s) + (v * c - u * s) * (v * c - u * s) = u * u + v * v := by
+  linear_combination (u * u + v * v) * h
+
+theorem sq_comb_le (u v c s : K) (h : c * c + s * s = 1) :
+    (u * c + v * s) * (u * c + v * s) ≤ u * u + v * v := by
+  have e := sq_comb_add u v c s h
+  have : 0 ≤ (v * c - u * s) * (v * c - u * s) := mul_self_nonneg _
+  linarith
+
+theorem abs_le_of_sq_le (z m : K) (hm : 0 ≤ m) (h : z * z ≤ m * m) : -m ≤ z ∧ z ≤ m := by
+  constructor
+  · by_contra hc
+    rw [not_le] at hc
+    have : m * m < z * z := by nlinarith
+    exact absurd h (not_le.mpr this)
+  · by_contra hc
+    rw [not_le] at hc
+    have : m * m < z * z := by nlinarith
+    exact absurd h (not_le.mpr this)
+
+/-- squared half-extent of the whole ellipse in x and in y, from the conjugate semi-diameters the arc stores -/
+def halfX2 (a : ArcData K) : K :=
+  (a.prx.x - a.center.x) * (a.prx.x - a.center.x) + (a.pry.x - a.center.x) * (a.pry.x - a.center.x)
+def halfY2 (a : ArcData K) : K :=
+  (a.prx.y - a.center.y) * (a.prx.y - a.center.y) + (a.pry.y - a.center.y) * (a.pry.y - a.center.y)
+
+/-- the derivative of the arc's denotation with respect to the parameter angle, per coordinate -/
+def denDx (a : ArcData K) (ct st : K) : K := (a.pry.x - a.center.x) * ct - (a.prx.x - a.center.x) * st
+def denDy (a : ArcData K) (ct st : K) : K := (a.pry.y - a.center.y) * ct - (a.prx.y - a.center.y) * st
+
+/-- **C08 for arcs, algebraic part (containment in the ellipse box)**: every point of the arc's
+    denotation `c + (prx − c) cos t + (pry − c) sin t` lies in the box of half-extents
+    `√((prx−c)ₓ² + (pry−c)ₓ²)`, `√((prx−c)ᵧ² + (pry−c)ᵧ²)` about the centre — for any pair
+    (cos t, sin t) on the unit circle, in any ordered field with square roots of non-negatives. -/
+theorem C08_arc_ellipse_box [Trig K] (a : ArcData K) (ct st : K) (h : ct * ct + st * st = 1)
+    (hsqrt : ∀ x : K, 0 ≤ x → 0 ≤ Trig.sqrt x ∧ Trig.sqrt x * Trig.sqrt x = x) :
+    let p := a.den ct st
+    a.center.x - Trig.sqrt (halfX2 a) ≤ p.x ∧ p.x ≤ a.center.x + Trig.sqrt (halfX2 a) ∧
+    a.center.y - Trig.sqrt (halfY2 a) ≤ p.y ∧ p.y ≤ a.center.y + Trig.sqrt (halfY2 a) := by
+  have nx : 0 ≤ halfX2 a := add_nonneg (mul_self_nonneg _) (mul_self_nonneg _)
+  have ny : 0 ≤ halfY2 a := add_nonneg (mul_self_nonneg _) (mul_self_nonneg _)
+  obtain ⟨sx0, sx⟩ := hsqrt _ nx
+  obtain ⟨sy0, sy⟩ := hsqrt _ ny
+  have bx := abs_le_of_sq_le ((a.prx.x - a.center.x) * ct + (a.pry.x - a.center.x) * st) _ sx0 (by rw [sx]; exact sq_comb_le (a.prx.x - a.center.x) (a.pry.x - a.center.x) ct st h)
+  have by' := abs_le_of_sq_le ((a.prx.y - a.center.y) * ct + (a.pry.y - a.center.y) * st) _ sy0 (by rw [sy]; exact sq_comb_le (a.prx.y - a.center.y) (a.pry.y - a.center.y) ct st h)
+  simp only [ArcData.den]
+  refine ⟨by linarith [bx.1], by linarith [bx.2], by linarith [by'.1], by linarith [by'.2]⟩
+
+/-- **C08 for arcs, algebraic part (the candidates are where the box is touched)**: at a parameter
+    where the x-derivative of the denotation vanishes the point lies on a vertical side of the
+    ellipse box, and where the y-derivative vanishes on a horizontal side. -/
+theorem C08_arc_critical_touches (a : ArcData K) (ct st : K) (h : ct * ct + st * st = 1) :
+    (denDx a ct st = 0 →
+      ((a.den ct st).x - a.center.x) * ((a.den ct st).x - a.center.x) = halfX2 a) ∧
+    (denDy a ct st = 0 →
+      ((a.den ct st).y - a.center.y) * ((a.den ct st).y - a.center.y) = halfY2 a) := by
+  constructor
+  · intro hd
+    have e := sq_comb_add (a.prx.x - a.center.x) (a.pry.x - a.center.x) ct st h
+    simp only [denDx] at hd
+    simp only [ArcData.den, halfX2]
+    rw [hd] at e
+    linear_combination e
+  · intro hd
+    have e := sq_comb_add (a.prx.y - a.center.y) (a.pry.y - a.center.y) ct st h
+    simp only [denDy] at hd
+    simp only [ArcData.den, halfY2]
+    rw [hd] at e
+    linear_combination e
+
+/-- conversely: a point of the denotation on a side of the ellipse box is a critical point -/
+theorem C08_arc_touch_is_critical (a : ArcData K) (ct st : K) (h : ct * ct + st * st = 1)
+    (ht : ((a.den ct st).x - a.center.x) * ((a.den ct st).x - a.center.x) = halfX2 a) :
+    denDx a ct st = 0 := by
+  have e := sq_comb_add (a.prx.x - a.center.x) (a.pry.x - a.center.x) ct st h
+  simp only [ArcData.den, halfX2] at ht
+  have z : denDx a ct st * denDx a ct st = 0 := by
+    simp only [denDx]; linear_combination e - ht
+  exact mul_self_eq_zero.mp z
+
+/-- **the angles `Arc.bbox` collects are the critical ones** (svgelements.py:5755-5762): for an arc
+    in orthogonal form — `prx − c = rx (cos φ, sin φ)`, `pry − c = ry (−sin φ, cos φ)` — a parameter
+    whose tangent is `−(ry/rx) tan φ` (the code's `atan_x`, and every `+ kπ` shift of it, which
+    leaves the tangent unchanged) annuls the x-derivative, and one whose tangent is
+    `(ry/rx) / tan φ` (`atan_y`) annuls the y-derivative. -/
+theorem C08_arc_candidate_angles (a : ArcData K) (rx ry cphi sphi ct st : K)
+    (hpx : a.prx.x - a.center.x = rx * cphi) (hpy : a.prx.y - a.center.y = rx * sphi)
+    (hqx : a.pry.x - a.center.x = -(ry * sphi)) (hqy : a.pry.y - a.center.y = ry * cphi)
+    (hrx : rx ≠ 0) (hc : cphi ≠ 0) (hs : sphi ≠ 0) :
+    (st = (-(ry / rx) * (sphi / cphi)) * ct → denDx a ct st = 0) ∧
+    (st = ((ry / rx) / (sphi / cphi)) * ct → denDy a ct st = 0) := by
+  constructor
+  · intro e
+    simp only [denDx, hpx, hqx, e]
+    field_simp
+    ring
+  · intro e
+    simp only [denDy, hpy, hqy, e]
+    field_simp
+    ring
+
+/-- the two special cases of the code: `cos φ = 0` uses the quarter turn for x and 0 for y;
+    `sin φ = 0` the other way round -/
+theorem C08_arc_candidate_axis (a : ArcData K) (rx ry cphi sphi : K)
+    (hpx : a.prx.x - a.center.x = rx * cphi) (hpy : a.prx.y - a.center.y = rx * sphi)
+    (hqx : a.pry.x - a.center.x = -(ry * sphi)) (hqy : a.pry.y - a.center.y = ry * cphi) :
+    (cphi = 0 → denDx a 0 1 = 0 ∧ denDx a 0 (-1) = 0 ∧ denDy a 1 0 = 0 ∧ denDy a (-1) 0 = 0) ∧
+    (sphi = 0 → denDx a 1 0 = 0 ∧ denDx a (-1) 0 = 0 ∧ denDy a 0 1 = 0 ∧ denDy a 0 (-1) = 0) := by
+  constructor
+  · intro z
+    simp only [denDx, denDy, hpx, hpy, hqx, hqy, z]
+    refine ⟨by ring, by ring, by ring, by ring⟩
+  · intro z
+    simp only [denDx, denDy, hpx, hpy, hqx, hqy, z]
+    refine ⟨by ring, by ring, by ring, by ring⟩
+
+
+/-- the faithful evaluator `Arc.point_at_t` (what the driver runs and the correspondence ties to the
+    code) computes exactly the denotation these theorems speak about, for an arc in orthogonal form
+    whose radii and rotation the accessors report as such -/
+theorem C08_arc_pointAtT_is_den [Trig K] (a : ArcData K) (t rx ry cphi sphi : K)
+    (hpx : a.prx.x - a.center.x = rx * cphi) (hpy : a.prx.y - a.center.y = rx * sphi)
+    (hqx : a.pry.x - a.center.x = -(ry * sphi)) (hqy : a.pry.y - a.center.y = ry * cphi)
+    (hrx : a.rx = rx) (hry : a.ry = ry)
+    (hc : Trig.cos a.rotation = cphi) (hs : Trig.sin a.rotation = sphi) :
+    a.pointAtT t = a.den (Trig.cos t) (Trig.sin t) := by
+  simp only [ArcData.pointAtT, ArcData.den, hpx, hpy, hqx, hqy, hrx, hry, hc, hs, Pt.mk.injEq]
+  constructor <;> ring
+
+/-- non-vacuity: the arc with centre (1,2), rx = 2 along (3/5, 4/5), ry = 1 meets the orthogonal-form
+    hypotheses, and (cos t, sin t) = (3/5, 4/5) is on the unit circle -/
+example : let a : ArcData ℚ := ⟨⟨0,0⟩, ⟨0,0⟩, ⟨1,2⟩, ⟨1 + 2 * (3/5), 2 + 2 * (4/5)⟩, ⟨1 - 4/5, 2 + 3/5⟩, 1⟩
+    a.prx.x - a.center.x = 2 * (3/5) ∧ a.prx.y - a.center.y = 2 * (4/5) ∧
+    a.pry.x - a.center.x = -(1 * (4/5)) ∧ a.pry.y - a.center.y = 1 * (3/5) ∧
+    ((3:ℚ)/5) * (3/5) + (4/5) * (4/5) = 1 := by
+  norm_num
+
+end Arc
 end Svg.C08
